@@ -363,7 +363,7 @@ def command_cases(draw):
 
 def plan(tier: str) -> list[dict]:
     if tier == "quick":
-        return [{"mode": "machine", "examples": 50, "steps": 8, "cost": 4} for _ in range(3)] + [{"mode": "command", "examples": 3, "cost": 6}]
+        return [{"mode": "machine", "examples": 120, "steps": 8, "cost": 4} for _ in range(4)] + [{"mode": "command", "examples": 3, "cost": 6} for _ in range(3)]
     return [{"mode": "machine", "examples": 500, "steps": 12, "cost": 10} for _ in range(12)] + [{"mode": "command", "examples": 8, "cost": 12} for _ in range(4)]
 
 
